@@ -343,16 +343,17 @@ Theorem fbd_result_spec_proved : forall fresh_new cs P ns script t ns' r,
   NoDup (ids t) /\
   (exists D, forall x q, In (x, q) (depths t) -> q == D)%Q /\
   (forall x, In x (leaf_taxa t) -> exists i, x = Some i /\ i < length ns') /\
-  ((fresh_new = true \/ cs = true \/ (forall k, ~ In (LT false k) ns)) -> NoDup (leaf_taxa t)).
+  ((fresh_new = true \/ cs = true \/ (forall k, ~ In (LT false k) ns)) -> NoDup (leaf_taxa t)) /\
+  (exists extra, ns' = ns ++ extra).
 Proof.
   intros fn cs P ns script t ns' r HN H. unfold fbd_sim, fbd_run in H.
   step H. destruct (fbd_loop_inv _ _ _ _ _ _ HN (fbd_init_inv _ HN) Hs) as (st0 & I & Hlen & ->).
   step H. pose proof (fclosed_bd_inv _ _ I) as BI.
   destruct (finish_spec fn cs ns _ (mkSt (f_tr (fclosed st0)) (f_ext st0) (f_dead st0) [] (f_next st0))
-              _ _ ns' _ BI Hs0 t r H) as (F1 & F2 & F3 & F4 & F5 & F6).
+              _ _ ns' _ BI Hs0 t r H) as (F1 & F2 & F3 & F4 & F5 & F6 & F7).
   cbn [s_ext] in F1.
   split; [rewrite F1; exact Hlen|]. split; [apply (proj1 (arity_subtrees bin t)); exact F2|].
-  split; [exact F3|]. split; [exact F4|]. split; [exact F5|exact F6].
+  split; [exact F3|]. split; [exact F4|]. split; [exact F5|split; [exact F6|exact F7]].
 Qed.
 
 Theorem fbd_fuel_proved : forall fresh_new cs P ns script, fbd_sim fresh_new cs P ns script <> NoFuel.
